@@ -3,9 +3,9 @@
    N, Z, positive, nat stay Coq datatypes. *)
 From Coq Require Extraction ExtrOcamlBasic.
 From Coq Require Import NArith ZArith List FMapPositive.
-From LC Require Import gen.HashGen Core Api Spec CApi Conc.
+From LC Require Import gen.HashGen Core Api Spec CApi Codec CodecW Conc.
 Extraction Language OCaml.
-Extraction "model.ml" gstep ginit replay cstep cworld_init decode_file encode_file step init_world judge_op judge_stats sst_init fapply_std tsize capacity hashpower bucket_count
+Extraction "model.ml" gstep ginit replay cstep cworld_init decode_file encode_file encode_file_w decode_file_w_chk step init_world judge_op judge_stats sst_init fapply_std tsize capacity hashpower bucket_count
   bget cur_locks partial_key index_hash alt_index lock_ind_gen hashsize hashmask
   N.add N.mul N.div_eucl N.of_nat N.to_nat Z.of_N Z.opp Z.add Z.mul N.compare Z.compare N.gcd
   PositiveMap.elements kMaxNumLocks.
